@@ -62,6 +62,12 @@ type Store struct {
 	// "create not yet visible" window of the manager cache). Invisible holds those keys.
 	LagCreates bool
 	Invisible  map[Key]bool
+	// Ghosts: with LagCreates, an ObjectSet that was finally removed is still served by cached reads until
+	// SyncCreates (the "delete not yet visible" window of the manager cache).
+	Ghosts      map[Key]map[string]any
+	ghostAge    int
+	HoldGhosts  bool // scenario option: ghosts stay until the run settles
+	FlushGhosts bool // SyncCreates also ends every delete-not-yet-visible window (used when settling)
 	// immutable spec fields of ObjectSets enforced like the CRD's CEL rules
 	mapper *meta.DefaultRESTMapper
 }
@@ -75,6 +81,7 @@ func NewStore() *Store {
 		DryRunErr:   map[string]string{},
 		cacheObjs:   map[Key]map[string]any{},
 		Invisible:   map[Key]bool{},
+		Ghosts:      map[Key]map[string]any{},
 		mapper:      meta.NewDefaultRESTMapper(nil),
 	}
 }
@@ -234,6 +241,12 @@ func (s *Store) Keys() []Key {
 
 // ---- semantic operations (all return API errors like an apiserver) ----
 
+func (s *Store) ghost(k Key, m map[string]any) {
+	if s.LagCreates && (k.Kind == "ObjectSet" || k.Kind == "ClusterObjectSet") {
+		s.Ghosts[k] = deepCopyMap(m)
+	}
+}
+
 func (s *Store) get(k Key, cached bool) (map[string]any, error) {
 	src := s.objs
 	if cached && s.Lag {
@@ -242,6 +255,9 @@ func (s *Store) get(k Key, cached bool) (map[string]any, error) {
 	o, ok := src[k]
 	if ok && cached && s.Invisible[k] {
 		ok = false
+	}
+	if g, isGhost := s.Ghosts[k]; !ok && cached && isGhost {
+		o, ok = g, true
 	}
 	if !ok {
 		return nil, apierrors.NewNotFound(gr(schema.GroupKind{Group: k.Group, Kind: k.Kind}), k.Name)
@@ -255,7 +271,19 @@ func (s *Store) list(gk schema.GroupKind, ns string, sel labels.Selector, cached
 		src = s.cacheObjs
 	}
 	var out []map[string]any
-	for k, o := range src {
+	all := src
+	if cached && len(s.Ghosts) > 0 {
+		all = map[Key]map[string]any{}
+		for k, o := range src {
+			all[k] = o
+		}
+		for k, g := range s.Ghosts {
+			if _, ok := all[k]; !ok {
+				all[k] = g
+			}
+		}
+	}
+	for k, o := range all {
 		if k.Group != gk.Group || k.Kind != gk.Kind {
 			continue
 		}
@@ -433,6 +461,7 @@ func (s *Store) finish(k Key, ki KindInfo, old, m map[string]any, dry bool) (map
 	}
 	md["resourceVersion"] = s.nextRV()
 	if _, deleting := md["deletionTimestamp"]; deleting && len(finalizersOf(m)) == 0 {
+		s.ghost(k, m)
 		delete(s.objs, k)
 		delete(s.lastApplied, k)
 		return deepCopyMap(m), true, nil
@@ -773,6 +802,7 @@ func (s *Store) del(k Key, ki KindInfo, uid, rv *string, dry bool) (map[string]a
 		s.put(k, m)
 		return deepCopyMap(m), "marked", nil
 	}
+	s.ghost(k, old)
 	delete(s.objs, k)
 	delete(s.lastApplied, k)
 	return deepCopyMap(old), "removed", nil
@@ -799,5 +829,12 @@ func (s *Store) SyncCreates() int {
 	defer s.mu.Unlock()
 	n := len(s.Invisible)
 	s.Invisible = map[Key]bool{}
+	// deletes become visible more slowly than creates here (every 4th sync): a ghost has to survive several passes
+	// to matter, and an adversarially slow cache is within the quantifier
+	s.ghostAge++
+	if (s.ghostAge%4 == 0 && !s.HoldGhosts) || s.FlushGhosts {
+		n += len(s.Ghosts)
+		s.Ghosts = map[Key]map[string]any{}
+	}
 	return n
 }
